@@ -199,47 +199,212 @@ pub fn concrete_contract(p: &Program) -> String {
 }
 
 /// The program as a user would write it.
+/// The trait item of an interface, with its `sv` attributes but without `#[interface]`.
+pub fn render_interface_item(p: &Program, i: &Interface) -> String {
+    let mut s = String::new();
+    let (ic, iq) = iface_cq(p, i);
+    let assocs = assoc_self_names(i.assoc.len());
+    if i.style == CustomStyle::Fixed {
+        writeln!(s, "#[sv::custom(msg={ic}, query={iq})]").unwrap();
+    }
+    s.push_str(&msg_attrs(&i.msg_attrs));
+    writeln!(s, "pub trait {} {{", i.trait_name).unwrap();
+    writeln!(s, "    type Error: From<StdError>;").unwrap();
+    let (sc, sq) = if i.style == CustomStyle::Assoc {
+        writeln!(s, "    type ExecC: CustomMsg;").unwrap();
+        writeln!(s, "    type QueryC: CustomQuery;").unwrap();
+        ("Self::ExecC", "Self::QueryC")
+    } else {
+        (ic, iq)
+    };
+    for k in 0..i.assoc.len() {
+        writeln!(s, "    type A{k}: Gen;").unwrap();
+    }
+    for m in &i.methods {
+        let Role::Handler(kind) = m.role else { continue };
+        let e = if m.err == ErrTy::Custom { "Self::Error" } else { "StdError" };
+        let sg = sig(m, kind, &[], &assocs, sc, sq, e, true);
+        writeln!(s, "    {}", sg.attr).unwrap();
+        for l in variant_attrs(m).lines() {
+            writeln!(s, "    {}", l.trim_start()).unwrap();
+        }
+        writeln!(s, "    fn {}({}) -> {};", m.name, sg.params, sg.ret).unwrap();
+    }
+    writeln!(s, "}}").unwrap();
+    s
+}
+
+/// Tokens inside `#[entry_points(..)]`.
+pub fn entry_points_attr(p: &Program) -> String {
+    if p.contract.generics.is_empty() {
+        String::new()
+    } else {
+        format!("generics<{}>", conc_names(&p.contract.generics).join(", "))
+    }
+}
+
+/// `sv::` attribute lines of the contract impl; `order` optionally permutes the repeatable
+/// ones (messages, msg_attr, override_entry_point) -- used by the C14 twins.
+pub fn contract_attr_lines(p: &Program) -> Vec<String> {
+    let mut lines = vec![];
+    if p.contract.error == ErrTy::Custom {
+        lines.push("#[sv::error(CErr)]".to_string());
+    }
+    if p.contract.custom_msg || p.contract.custom_query {
+        let mut parts = vec![];
+        if p.contract.custom_msg {
+            parts.push("msg=MyMsg");
+        }
+        if p.contract.custom_query {
+            parts.push("query=MyQuery");
+        }
+        lines.push(format!("#[sv::custom({})]", parts.join(", ")));
+    }
+    for i in &p.interfaces {
+        let mut line = format!("#[sv::messages({}", i.module);
+        if i.explicit_as {
+            write!(line, " as {}", i.trait_name).unwrap();
+        }
+        if i.style == CustomStyle::Plain {
+            let mut flags = vec![];
+            if p.contract.custom_msg {
+                flags.push("msg");
+            }
+            if p.contract.custom_query {
+                flags.push("query");
+            }
+            if !flags.is_empty() {
+                write!(line, ": custom({})", flags.join(", ")).unwrap();
+            }
+        }
+        line.push_str(")]");
+        lines.push(line);
+    }
+    for l in msg_attrs(&p.contract.msg_attrs).lines() {
+        lines.push(l.to_string());
+    }
+    if p.contract.replies {
+        lines.push("#[sv::features(replies)]".to_string());
+    }
+    for k in &p.contract.overrides {
+        lines.push(format!("#[sv::override_entry_point({}=ovr::{}(ovr::OvrMsg))]", k.attr(), k.ep()));
+    }
+    lines
+}
+
+/// The methods of the contract impl (text of each method, in model order).
+pub fn contract_method_texts(p: &Program) -> Vec<String> {
+    let (c, q) = (c_ty(p), q_ty(p));
+    let params = param_names(p.contract.generics.len());
+    let mut out = vec![];
+    for m in &p.contract.methods {
+        let Role::Handler(kind) = m.role else { continue };
+        if kind == Kind::Reply {
+            out.push(render_reply_method(p, m, &params, c, q));
+            continue;
+        }
+        let mut s = String::new();
+        let custom_err = m.err == ErrTy::Custom && p.contract.error == ErrTy::Custom;
+        let e = if custom_err { "CErr" } else { "StdError" };
+        let sg = sig(m, kind, &params, &[], c, q, e, true);
+        let id = format!("ctr::{}::{}", kind.attr(), m.name);
+        let resp_conc = resp_rust(m.resp, &params);
+        writeln!(s, "    {}", sg.attr).unwrap();
+        for l in variant_attrs(m).lines() {
+            writeln!(s, "    {}", l.trim_start()).unwrap();
+        }
+        writeln!(s, "    fn {}({}) -> {} {{", m.name, sg.params, sg.ret).unwrap();
+        writeln!(s, "        {}", echo_body(p, m, kind, &id, c, q, custom_err, &resp_conc)).unwrap();
+        writeln!(s, "    }}").unwrap();
+        out.push(s);
+    }
+    out
+}
+
+/// The impl item of the contract with its `sv` attributes, without `#[contract]` /
+/// `#[entry_points]`.
+pub fn render_contract_item_with(p: &Program, attr_lines: &[String], methods: &[String]) -> String {
+    let mut s = String::new();
+    let (ig, ta, wh) = generics_decl(p);
+    for l in attr_lines {
+        writeln!(s, "{l}").unwrap();
+    }
+    writeln!(s, "impl{ig} Ctr{ta} {wh} {{").unwrap();
+    if p.contract.generics.is_empty() {
+        writeln!(s, "    pub const fn new() -> Self {{ Self }}").unwrap();
+    } else {
+        writeln!(s, "    pub const fn new() -> Self {{ Self {{ _p: PhantomData }} }}").unwrap();
+    }
+    for m in methods {
+        s.push_str(m);
+    }
+    writeln!(s, "}}").unwrap();
+    s
+}
+
+pub fn render_contract_item(p: &Program) -> String {
+    render_contract_item_with(p, &contract_attr_lines(p), &contract_method_texts(p))
+}
+
+/// Free functions standing in for overridden entry points.
+pub fn render_overrides(p: &Program) -> String {
+    if p.contract.overrides.is_empty() {
+        return String::new();
+    }
+    let (c, q, err) = (c_ty(p), q_ty(p), err_ty(p));
+    let mut s = String::new();
+    writeln!(s, "pub mod ovr {{\n    use super::*;").unwrap();
+    writeln!(s, "    #[svrt::cw_serde_alias]\n    pub struct OvrMsg {{ pub tag: String }}").unwrap();
+    for k in &p.contract.overrides {
+        let conv = if p.contract.error == ErrTy::Custom { ".map_err(Into::into)" } else { "" };
+        match k {
+            Kind::Exec | Kind::Instantiate => writeln!(
+                s,
+                "    pub fn {ep}(deps: DepsMut<{q}>, env: Env, info: MessageInfo, msg: OvrMsg) -> Result<Response<{c}>, {err}> {{ echo_mut::<{q}, {c}>(deps, &env, Some(&info), \"override::{a}\", \"{a}\", vec![(\"tag\", svrt::j(&msg.tag))], svrt::serde_json::Value::Null){conv} }}",
+                ep = k.ep(),
+                a = k.attr()
+            )
+            .unwrap(),
+            Kind::Query => writeln!(
+                s,
+                "    pub fn query(deps: Deps<{q}>, env: Env, msg: OvrMsg) -> Result<Binary, {err}> {{ let r = echo_query::<{q}, EchoA>(deps, &env, \"override::query\", vec![(\"tag\", svrt::j(&msg.tag))], |r| <EchoA as svrt::FromRec>::from_rec(r)){conv}?; Ok(svrt::to_bin(&r)) }}"
+            )
+            .unwrap(),
+            Kind::Reply => writeln!(
+                s,
+                "    pub fn reply(deps: DepsMut<{q}>, env: Env, msg: Reply) -> Result<Response<{c}>, {err}> {{ echo_mut::<{q}, {c}>(deps, &env, None, \"override::reply\", \"reply\", vec![(\"id\", svrt::j(&msg.id))], svrt::serde_json::Value::Null){conv} }}"
+            )
+            .unwrap(),
+            _ => writeln!(
+                s,
+                "    pub fn {ep}(deps: DepsMut<{q}>, env: Env, msg: OvrMsg) -> Result<Response<{c}>, {err}> {{ echo_mut::<{q}, {c}>(deps, &env, None, \"override::{a}\", \"{a}\", vec![(\"tag\", svrt::j(&msg.tag))], svrt::serde_json::Value::Null){conv} }}",
+                ep = k.ep(),
+                a = k.attr()
+            )
+            .unwrap(),
+        }
+    }
+    writeln!(s, "}}").unwrap();
+    s
+}
+
+/// The program as a user would write it.
 pub fn render_source(p: &Program, o: &RenderOpts) -> String {
     let mut s = String::new();
-    let sv = &o.sv;
-    let (c, q, err) = (c_ty(p), q_ty(p), err_ty(p));
+    let err = err_ty(p);
     let (ig, ta, wh) = generics_decl(p);
     let params = param_names(p.contract.generics.len());
 
     for i in &p.interfaces {
-        let (ic, iq) = iface_cq(p, i);
-        let assocs = assoc_self_names(i.assoc.len());
         writeln!(s, "pub mod {} {{", i.module).unwrap();
         writeln!(s, "    use super::*;").unwrap();
         writeln!(s, "    #[interface]").unwrap();
-        if i.style == CustomStyle::Fixed {
-            writeln!(s, "    #[sv::custom(msg={ic}, query={iq})]").unwrap();
-        }
-        for l in msg_attrs(&i.msg_attrs).lines() {
+        for l in render_interface_item(p, i).lines() {
             writeln!(s, "    {l}").unwrap();
         }
-        writeln!(s, "    pub trait {} {{", i.trait_name).unwrap();
-        writeln!(s, "        type Error: From<StdError>;").unwrap();
-        let (sc, sq) = if i.style == CustomStyle::Assoc {
-            writeln!(s, "        type ExecC: CustomMsg;").unwrap();
-            writeln!(s, "        type QueryC: CustomQuery;").unwrap();
-            ("Self::ExecC", "Self::QueryC")
-        } else {
-            (ic, iq)
-        };
-        for k in 0..i.assoc.len() {
-            writeln!(s, "        type A{k}: Gen;").unwrap();
-        }
-        for m in &i.methods {
-            let Role::Handler(kind) = m.role else { continue };
-            let e = if m.err == ErrTy::Custom { "Self::Error" } else { "StdError" };
-            let sg = sig(m, kind, &[], &assocs, sc, sq, e, true);
-            writeln!(s, "        {}", sg.attr).unwrap();
-            s.push_str(&variant_attrs(m));
-            writeln!(s, "        fn {}({}) -> {};", m.name, sg.params, sg.ret).unwrap();
-        }
-        writeln!(s, "    }}\n}}").unwrap();
+        writeln!(s, "}}").unwrap();
     }
+    s.push_str(&render_overrides(p));
 
     // contract struct
     if p.contract.generics.is_empty() {
@@ -279,77 +444,16 @@ pub fn render_source(p: &Program, o: &RenderOpts) -> String {
 
     // contract impl
     if p.contract.entry_points {
-        if p.contract.generics.is_empty() {
+        let a = entry_points_attr(p);
+        if a.is_empty() {
             writeln!(s, "#[entry_points]").unwrap();
         } else {
-            writeln!(s, "#[entry_points(generics<{}>)]", conc_names(&p.contract.generics).join(", ")).unwrap();
+            writeln!(s, "#[entry_points({a})]").unwrap();
         }
     }
     writeln!(s, "#[contract]").unwrap();
-    if p.contract.error == ErrTy::Custom {
-        writeln!(s, "#[sv::error(CErr)]").unwrap();
-    }
-    if p.contract.custom_msg || p.contract.custom_query {
-        let mut parts = vec![];
-        if p.contract.custom_msg {
-            parts.push("msg=MyMsg");
-        }
-        if p.contract.custom_query {
-            parts.push("query=MyQuery");
-        }
-        writeln!(s, "#[sv::custom({})]", parts.join(", ")).unwrap();
-    }
-    for i in &p.interfaces {
-        let mut line = format!("#[sv::messages({}", i.module);
-        if i.explicit_as {
-            write!(line, " as {}", i.trait_name).unwrap();
-        }
-        if i.style == CustomStyle::Plain {
-            let mut flags = vec![];
-            if p.contract.custom_msg {
-                flags.push("msg");
-            }
-            if p.contract.custom_query {
-                flags.push("query");
-            }
-            if !flags.is_empty() {
-                write!(line, ": custom({})", flags.join(", ")).unwrap();
-            }
-        }
-        line.push_str(")]");
-        writeln!(s, "{line}").unwrap();
-    }
-    s.push_str(&msg_attrs(&p.contract.msg_attrs));
-    if p.contract.replies {
-        writeln!(s, "#[sv::features(replies)]").unwrap();
-    }
-    writeln!(s, "impl{ig} Ctr{ta} {wh} {{").unwrap();
-    if p.contract.generics.is_empty() {
-        writeln!(s, "    pub const fn new() -> Self {{ Self }}").unwrap();
-    } else {
-        writeln!(s, "    pub const fn new() -> Self {{ Self {{ _p: PhantomData }} }}").unwrap();
-    }
-    for m in &p.contract.methods {
-        let Role::Handler(kind) = m.role else { continue };
-        if kind == Kind::Reply {
-            s.push_str(&render_reply_method(p, m, &params, c, q));
-            continue;
-        }
-        let custom_err = m.err == ErrTy::Custom && p.contract.error == ErrTy::Custom;
-        let e = if custom_err { "CErr" } else { "StdError" };
-        let sg = sig(m, kind, &params, &[], c, q, e, true);
-        let id = format!("ctr::{}::{}", kind.attr(), m.name);
-        let resp_conc = resp_rust(m.resp, &params);
-        writeln!(s, "    {}", sg.attr).unwrap();
-        for l in variant_attrs(m).lines() {
-            writeln!(s, "    {}", l.trim_start()).unwrap();
-        }
-        writeln!(s, "    fn {}({}) -> {} {{", m.name, sg.params, sg.ret).unwrap();
-        writeln!(s, "        {}", echo_body(p, m, kind, &id, c, q, custom_err, &resp_conc)).unwrap();
-        writeln!(s, "    }}").unwrap();
-    }
-    writeln!(s, "}}").unwrap();
-    let _ = sv;
+    s.push_str(&render_contract_item(p));
+    let _ = o;
     s
 }
 
@@ -370,6 +474,20 @@ fn render_reply_method(p: &Program, m: &Method, params: &[String], c: &str, q: &
     let mut s = String::new();
     let custom_err = m.err == ErrTy::Custom && p.contract.error == ErrTy::Custom;
     let e = if custom_err { "CErr" } else { "StdError" };
+    if !p.contract.replies {
+        // legacy form (no `sv::features(replies)`): the handler receives the raw `Reply`
+        let tail = if custom_err { ".map_err(to_cerr)" } else { "" };
+        writeln!(s, "    #[sv::msg(reply)]").unwrap();
+        writeln!(s, "    fn {}(&self, ctx: {}, reply: Reply) -> Result<{}, {e}> {{", m.name, ctx_ty(Kind::Reply, q), resp_ty(c)).unwrap();
+        writeln!(
+            s,
+            "        echo_mut::<{q}, {c}>(ctx.deps, &ctx.env, None, \"ctr::reply::{}\", \"reply\", vec![(\"reply\", svrt::j(&reply))], svrt::serde_json::Value::Null){tail}",
+            m.name
+        )
+        .unwrap();
+        writeln!(s, "    }}").unwrap();
+        return s;
+    }
     let mut attr = String::from("#[sv::msg(reply");
     if !spec.handlers.is_empty() {
         write!(attr, ", handlers=[{}]", spec.handlers.join(", ")).unwrap();
